@@ -309,6 +309,10 @@ fn conservation(heap: &Heap, m: &samlang_ast::source::Module<()>, text: &str, to
   let mut module_paths = vec![];
   for n in &nodes {
     let key = (n.loc.start.0, n.loc.start.1, n.loc.end.0, n.loc.end.1);
+    if n.kind == "import-module" {
+      module_paths.push(n.loc);
+      continue;
+    }
     if let Some(name) = &n.name {
       *name_at.entry(key).or_default() += 1;
       let got = super::c14::slice(text, &offs, &n.loc);
@@ -321,9 +325,6 @@ fn conservation(heap: &Heap, m: &samlang_ast::source::Module<()>, text: &str, to
     }
     if n.kind == "literal" {
       *literal_at.entry(key).or_default() += 1;
-    }
-    if n.kind == "import-module" {
-      module_paths.push(n.loc);
     }
   }
   for (i, t) in toks.iter().enumerate() {
